@@ -341,8 +341,8 @@ def run(p, led, tier):
     tattr = None
     init = mito.methods["__init__"]
     for n in walk_no_nested(init.node):
-        if isinstance(n, ast.Assign) and is_self_attr(n.targets[0]) and isinstance(n.value, ast.Name) and "timeout" in n.value.id:
-            tattr = n.targets[0].attr
+        if isinstance(n, ast.Assign) and is_self_attr(n.targets[0]) and any(isinstance(x, ast.Name) and "timeout" in x.id for x in ast.walk(n.value)):
+            tattr = n.targets[0].attr          # stored as given, or after validation / conversion
     if tattr is None:
         raise AnchorError("Mitochondria.__init__ no longer stores a timeout")
     control = []
@@ -419,7 +419,8 @@ def _lambda_safe(lam):
     return None
 
 
-TOTAL_CALLS = {"len", "isinstance", "str", "repr", "type", "max", "min", "bool", "list", "dict", "set", "tuple", "any", "all", "sorted", "callable", "id", "hash", "round", "abs", "enumerate", "zip", "range"}
+TOTAL_CALLS = {"len", "isinstance", "str", "repr", "type", "max", "min", "bool", "list", "dict", "set", "tuple", "any", "all", "sorted", "callable", "id", "hash", "round", "abs", "enumerate", "zip", "range",
+               "str.__str__", "str.__len__", "str.lower", "str.upper", "str.strip"}      # unbound str slots on a str (sub)class instance
 TOTAL_METHODS = {"lower", "upper", "strip", "lstrip", "rstrip", "startswith", "endswith", "replace", "split", "join", "keys", "values", "items", "get", "append", "extend",
                  "add", "time", "now", "utcnow", "isoformat", "format", "copy", "casefold", "isdigit", "find", "count", "title", "capitalize", "partition", "setdefault", "update", "_replace", "_asdict"}
 RAISING_CALLS = {"int", "float", "print_input", "json.loads", "ast.parse", "ast.literal_eval", "re.compile", "re.search", "re.match", "re.sub", "re.findall", "open", "next", "eval", "exec", "compile"}
